@@ -13,6 +13,9 @@
  *   pnrprobe           which form of _iterator_advance_range (F14-NEXTRANGE): fixed | unchanged
  *   pranges s|p|n|N    hostlist_shift_range / hostlist_pop_range (on a copy) / hostlist_next_range (iterator) until NULL:
  *                      HEX|HEX|.. or none
+ *   pranges S|P        the same two on a RECORD-FOR-RECORD copy (joinable neighbours stay unjoined, as a delete leaves
+ *                      them), in a forked child: HEX|HEX|..[!count=N][!crash:KIND]   (finding F14-RANGEMOVE)
+ *   prmprobe           which bookkeeping hostlist_shift_range / hostlist_pop_range have: fixed | unchanged
  *   pback r|d          hostlist_create(reference text) compared host by host (the hosts the range records of
  *                      both lists denote) with the current list:  same COUNT | diff I HEXA HEXB | null:ERRNO:FATAL | no-reference
  */
@@ -296,6 +299,120 @@ static void p_ranges(hostlist_t hl, int which)
     hostlist_destroy(c);
 }
 
+/* hostlist_shift_range / hostlist_pop_range until NULL on a record-for-record copy of the list (built like `pmk`:
+ * hostlist_insert_range at the end, no tail coalescing), in a forked child under the sanitizers.  Both functions
+ * subtract hltmp->nranges from hl->nranges; when hostlist_push_range joined records while moving them into hltmp that
+ * is fewer than the records moved (finding F14-RANGEMOVE): the next call reads a freed record / a NULL slot.
+ * Answer: the pieces, `!count=N` when the list is not empty after the NULL, `!crash:KIND` when the child died. */
+static int p_ranges_raw_child(hostlist_t hl, int which, int quiet)
+{
+    hostlist_t c = hostlist_new();
+    int k = 0, i;
+    char *s;
+    for (i = 0; i < hl->nranges; i++) {
+        hostlist_insert_range(c, hl->hr[i], c->nranges);
+        c->nhosts += (int) hostrange_count(hl->hr[i]);
+    }
+    while ((s = (which == 'S' ? hostlist_shift_range(c) : hostlist_pop_range(c))) != NULL) {
+        if (!quiet) {
+            if (k) putchar('|');
+            puthex(stdout, s);
+            fflush(stdout);
+        }
+        k++;
+        hl_free(s);
+        if (k > 100000) break;
+    }
+    if (!quiet) {
+        if (!k) printf("none");
+        if (hostlist_count(c) != 0) printf("!count=%d", hostlist_count(c));
+        fflush(stdout);
+    }
+    i = hostlist_count(c);
+    hostlist_destroy(c);
+    return k * 1000 + i;
+}
+
+static int p_forked(hostlist_t hl, int which, int quiet, char *kindbuf, size_t kn)
+{
+    int pe[2], status = 0;
+    pid_t pid;
+    char *e;
+    size_t en;
+    snprintf(kindbuf, kn, "none");
+    fflush(stdout);
+    if (pipe(pe) < 0) { snprintf(kindbuf, kn, "harness-pipe"); return -1; }
+    pid = fork();
+    if (pid < 0) { snprintf(kindbuf, kn, "harness-fork"); return -1; }
+    if (pid == 0) {
+        struct rlimit rl = { 0, 0 };
+        int r;
+        close(pe[0]);
+        dup2(pe[1], 2);
+        setrlimit(RLIMIT_CORE, &rl);
+        r = p_ranges_raw_child(hl, which, quiet);
+        fflush(stdout);
+        _exit(quiet ? (r == 1000 ? 0 : 4) : 0);
+    }
+    close(pe[1]);
+    e = slurp(pe[0], &en);
+    close(pe[0]);
+    waitpid(pid, &status, 0);
+    if (!(WIFEXITED(status) && (WEXITSTATUS(status) == 0 || WEXITSTATUS(status) == 4))) {
+        const char *p;
+        snprintf(kindbuf, kn, "unknown");
+        if ((p = strstr(e, "ERROR: AddressSanitizer: "))) {
+            size_t i = 0;
+            p += strlen("ERROR: AddressSanitizer: ");
+            while (*p && !isspace((unsigned char) *p) && i + 1 < kn) kindbuf[i++] = *p++;
+            kindbuf[i] = 0;
+        } else if (strstr(e, "runtime error:"))
+            snprintf(kindbuf, kn, "ubsan");
+        else if (strstr(e, "Assertion"))
+            snprintf(kindbuf, kn, "assert");
+        else if (WIFSIGNALED(status))
+            snprintf(kindbuf, kn, "sig%d", WTERMSIG(status));
+        if (getenv("HL_PRINT_DEBUG")) {
+            FILE *df = fopen(getenv("HL_PRINT_DEBUG"), "a");
+            if (df) { fprintf(df, "---- pranges %c status=%x kind=%s\n%.3000s\n", which, status, kindbuf, e); fclose(df); }
+        }
+        free(e);
+        return 1;
+    }
+    free(e);
+    return WEXITSTATUS(status) == 4 ? 2 : 0;
+}
+
+static void p_ranges_raw(hostlist_t hl, int which)
+{
+    char kind[64];
+    int r = p_forked(hl, which, 0, kind, sizeof(kind));
+    if (r != 0) printf("!crash:%s", kind);
+    putchar('\n');
+}
+
+/* which bookkeeping do hostlist_shift_range / hostlist_pop_range have?  `f[1-2]`, `f[3-4]` side by side: as written
+ * the first call gives up one slot for two records moved and the second call (or the destroy) trips the sanitizer;
+ * repaired = ONE call returns the group, the list is empty, nothing is reported - for both functions */
+static void p_rangemove_probe(void)
+{
+    hostlist_t h = hostlist_new();
+    hostrange_t a = hostrange_create("f", 1, 2, 1), b = hostrange_create("f", 3, 4, 1);
+    char kind[64];
+    int rs, rp;
+    hostlist_insert_range(h, a, 0);
+    hostlist_insert_range(h, b, 1);
+    h->nhosts = 4;
+    hostrange_destroy(a);
+    hostrange_destroy(b);
+    rs = p_forked(h, 'S', 1, kind, sizeof(kind));
+    rp = p_forked(h, 'P', 1, kind, sizeof(kind));
+    hostlist_destroy(h);
+    if (rs == 0 && rp == 0) printf("fixed\n");
+    else if (rs == 0 || rp == 0) printf("mixed:%d:%d\n", rs, rp);
+    else printf("unchanged\n");
+}
+
 /* hostlist_next_range on a fresh iterator over the list itself until NULL (buf[MAXHOSTRANGELEN+1] on the stack).
  * In the UNREPAIRED _iterator_advance_range the call that returns NULL reads hl->hr[hl->nranges]; when the array is
  * full (nranges == size) that is a read past the heap block (finding F14-NEXTRANGE).  Which form the code under test
@@ -372,12 +489,14 @@ static int print_op(hostlist_t hl, const char *op, const char *line)
 {
     char k[8] = "", nm[64] = "";
     if (strcmp(op, "ptext") && strcmp(op, "psweep") && strcmp(op, "pexact") && strcmp(op, "pback")
-        && strcmp(op, "pranges") && strcmp(op, "pnrprobe"))
+        && strcmp(op, "pranges") && strcmp(op, "pnrprobe") && strcmp(op, "prmprobe"))
         return 0;
     if (!strcmp(op, "pnrprobe")) { p_nextrange_probe(); return 1; }
+    if (!strcmp(op, "prmprobe")) { p_rangemove_probe(); return 1; }
     sscanf(line, "%*s %7s %63s", k, nm);
     if (!strcmp(op, "pranges")) {
         if (k[0] == 'n' || k[0] == 'N') p_next_ranges(hl, k[0] == 'N');
+        else if (k[0] == 'S' || k[0] == 'P') p_ranges_raw(hl, k[0]);
         else if (k[0] != 's' && k[0] != 'p') printf("bad-arg\n"); else p_ranges(hl, k[0]);
         return 1;
     }
